@@ -174,6 +174,8 @@ fn main() {
             "sealed_signed": c("sealed.signed"),
             "merge_commands_written": c("sealed.merge"),
             "tainted_node_events": c("tainted_nodes_events"),
+            "sealed_ids_recomputed_from_public_data_ok": c("id_recomputed_from_public_data.ok"),
+            "sealed_ids_recomputed_from_public_data_MISMATCH": c("id_recomputed_from_public_data.MISMATCH"),
         }),
     );
     ev.set("sessions", json!({"fault_phase": c("sessions"), "quiescent": c("sessions.quiescent"), "responses": c("responses"), "commands_sent": c("commands_sent")}));
@@ -195,7 +197,7 @@ fn main() {
     );
     ev.assumptions = vec![
         "OS randomness is not used: DefaultEngine is built over a seeded Csprng, Ed25519 signing is deterministic".into(),
-        "the adversary controls the transport only: it recombines honest material and random bytes, it holds no honest signing key".into(),
+        "the adversary controls the transport only: it recombines honest material and random bytes and can hash (the Re* mutations change a bound field and recompute the command id from public data exactly as the verifier does); it holds no honest signing key".into(),
         "merge commands carry no author and no signature and never reach the policy; a merge-shaped command that no honest replica wrote is counted under outcome_undetermined (merge-shaped), not asserted either way; --strict-merge 1 asserts rejection".into(),
         "the shipped policy verifies Init with the key carried in its own payload and ignores the envelope's author: an Init whose author id alone was changed is counted under outcome_undetermined (init-author)".into(),
         "changes confined to priority, the parent's max cut, policy bytes or bytes after the serialized VmProtocolData are transport metadata the statement does not bind: counted, not asserted".into(),
